@@ -18,10 +18,25 @@ FIRST = {  # the checks most likely to notice a change in a package run first
     "types/": ["C05", "C08", "C15"],
 }
 
+# checks that cannot observe a change in a package are not run for its mutants: C06/C09/C16 drive
+# the interpreter or the client-side placeholder rules (core is not involved); C17 compares the
+# two clients, which share core and the interpreter; C11's oracle is relative to the same code run
+# sequentially, C15/C18/C19 evaluate no expression
+IRRELEVANT = {
+    "core/": {"C06", "C09", "C16", "C17"},
+    "types/": {"C06", "C09", "C16", "C17"},
+    "interpreter/": {"C11", "C15", "C17", "C18", "C19"},
+    "aws-v": {"C06"},
+}
+
 def order_for(path):
     for pre in sorted(FIRST, key=len, reverse=True):
         if path.startswith(pre):
-            return FIRST[pre] + [c for c in CHEAP if c not in FIRST[pre]]
+            skip = set()
+            for p2, cs in IRRELEVANT.items():
+                if path.startswith(p2):
+                    skip = cs
+            return [c for c in FIRST[pre] + [c for c in CHEAP if c not in FIRST[pre]] if c not in skip]
     return CHEAP
 ENV = dict(os.environ, GOFLAGS="-mod=mod", GOPROXY="off", GOSUMDB="off", GOTOOLCHAIN="local")
 BASE = "/tmp/mut"
@@ -72,6 +87,15 @@ def worker(w, q, out, lock):
         src = open(path, "rb").read()
         res = {"id": m["id"], "file": m["file"], "line": m["line"], "kind": m["kind"], "func": m["func"], "orig": m["orig"][:80]}
         t0 = time.time()
+        line = src.split(b"\n")[m["line"] - 1].decode(errors="replace")
+        if "HACK for passing coverage" in line or ".Debug" in line or m["func"].endswith(".String") or m["func"].endswith(".TokenLiteral"):
+            # statements that exist for test coverage, debug printing and the String() renderers of the
+            # AST (used by debug output and by the interpreter's own tests only)
+            res["status"] = "not-run(non-semantic site)"
+            with lock:
+                out.write(json.dumps(res) + "\n")
+                out.flush()
+            continue
         try:
             open(path, "wb").write(src[:m["start"]] + m["repl"].encode() + src[m["end"]:])
             rc, o = sh("go build ./...", f"{d}/repo", 300)
